@@ -44,6 +44,9 @@
     replacement; witness n = 4, budget = 4, draw [0,0,1,2])
   * Regression (not a clause): `C05_S5_dropped_budget_counterexample` (S5-C05: homoscedastic wrapper drops max_combos → default 5000;
     for n = 34 no caller budget yields all 5984 triples)
+  * harness-only: rounding -- `C05_expanded_square_invisible(_model)` (Props/C05Regress.lean) proves that the S8-C05 rewrite
+    `m_i² + m_j² - 2 m_i m_j` equals `(m_i - m_j)²` in every commutative ring: invisible to every theorem here; its cancellation error for
+    means with a large common offset is caught by the floating-point oracle alone (harness class `offset-means`)
   * harness-only: "to floating-point accuracy" (IEEE rounding, under/overflow: the wide-dynamic-range cases);
     `-inf` for a plate without any positive-distance triple (`Real.log 0 = 0` in ℝ: the theorem is stated on the sum);
     `distance_factor ≤ 0` on a zero-distance triple (`0 * -inf` = NaN, negative * -inf = +inf in the code; the model is
